@@ -115,6 +115,26 @@ SLinesAt(pos) ==
                 \cup { [t |-> "P", s |-> f, z |-> TRUE] : f \in ReprT }
 IsSUniverse == Universe \in {"S1", "S2", "S3"}
 
+(* ---------------- constructs that span lines (universes "SP", "SP3"; round 8) ---------------- *)
+\* A document is: at most one line in front, a list / paragraph / indented line that OPENS a construct after its
+\* word (<pre>, <div>, <span>, <ref>), at most one continuation line, the line with the closer (closer first or word
+\* first), and then every sequence of <= MaxLines ordinary structure lines.  The states in which the construct is
+\* still open are unbalanced documents: they are passed through, not printed.
+IsSpanUniverse == Universe \in {"SP", "SP3"}
+SpanOpeners ==
+  { [t |-> "L", p |-> p, o |-> c] : p \in { <<"*">>, <<"*", "*">>, <<"#">> }, c \in SpanKinds }
+  \cup { [t |-> "P", o |-> c] : c \in SpanKinds } \cup { [t |-> "I", o |-> c] : c \in SpanKinds }
+SpanFollow ==
+  IF Universe = "SP" THEN { H(2), H(3), L(<<"*">>), L(<<"*", "*">>), R, P }
+  ELSE { H(2), H(3), L(<<"*">>), L(<<"#">>), L(<<"*", "*">>), R, P }
+CloserAt(d) == CHOOSE m \in 1..Len(d) : d[m].t = "C"
+SpanLinesAfter(d) ==
+  IF ~HasSpan(d) THEN (IF d = <<>> THEN { H(2), L(<<"*">>) } ELSE {}) \cup SpanOpeners
+  ELSE IF SpanOpen(d)
+  THEN (IF IsOpener(d, Len(d)) THEN { [t |-> "X"] } ELSE {})
+       \cup { [t |-> "C", c |-> d[OpenerOf(d, Len(d) + 1)].o, b |-> b] : b \in BOOLEAN }
+  ELSE IF Len(d) - CloserAt(d) < MaxLines THEN SpanFollow ELSE {}
+
 VARIABLES doc, pst
 vars == <<doc, pst>>
 Init == doc = <<>> /\ pst = InitS({})
@@ -124,7 +144,10 @@ AddLine(l) == /\ Len(doc) < MaxLines
 \* structured universes: at most one line with a structured filler per document
 AddSLine(l) == /\ IsSLine(l) => \A j \in 1..Len(doc) : ~IsSLine(doc[j])
                /\ AddLine(l)
+AddSpanLine(l) == /\ doc' = Append(doc, l)
+                  /\ pst' = FeedS(pst, Tokens(l, Len(doc) + 1), 1)
 Next == IF IsSUniverse THEN \E l \in SLinesAt(Len(doc) + 1) : AddSLine(l)
+        ELSE IF IsSpanUniverse THEN \E l \in SpanLinesAfter(doc) : AddSpanLine(l)
         ELSE \E l \in Lines : AddLine(l)
 Spec == Init /\ [][Next]_vars
 
@@ -147,7 +170,22 @@ Case ==
                                  ELSE base)>>)
     /\ ~pst.stuck
     /\ mrel = ref
-MachineOK == Case
+\* documents with a construct that spans lines: the expectation printed is the machine's (rel), the statement
+\* accepts both readings of the construct (acc: it ends / it continues the list item it was opened in);
+\* M: the machine realises one of them
+SpanCase ==
+  \E tree \in { Finish(pst).root } :
+  \E mrel \in { TreeRelations(tree, doc, W) } :
+  \E acc \in { RefAccept(Plain(doc)) } :
+    /\ PrintT(<<"CASE", ToJson([doc |-> Plain(doc), rel |-> mrel, acc |-> acc, span |-> TRUE])>>)
+    /\ ~pst.stuck
+    /\ \E k \in 1..Len(acc) : mrel = acc[k]
+\* the law of the persistent mode: when every construct of the document has been closed, the parser is in its
+\* initial mode again (whatever closed the construct's node)
+ModeOK == SpanOpen(doc) \/ ModeOf(pst) = InitialMode
+MachineOK == ModeOK /\ (IF HasSpan(doc) THEN SpanOpen(doc) \/ SpanCase ELSE Case)
+\* Demo: a machine whose </pre> leaves the non-interpreting mode only together with a PRE node against the law
+ModeLawDev == SpanOpen(doc) \/ ModeOf(FeedDoc(InitS(SpanDevs), doc, 1)) = InitialMode
 \* Demo: the as-is machine (hline_fn without LEVEL1 in its stop set) against the model
 AsIsOK == TreeRelations(MachineTree(doc, AllDevs), doc, W) = RefRelations(Plain(doc))
 \* Demo: a machine whose line-start switch is a flag instead of a counter against the model
